@@ -14,8 +14,8 @@ use crate::monitor::{Guarded, guard};
 use crate::prng::{Xoshiro, mix};
 use crate::util::{big, hexw, words as to_words_n};
 use crate::with_limbs;
-use crypto_bigint::modular::{BoxedMontyForm, BoxedMontyParams, ConstMontyForm, ConstMontyParams, MontyForm, MontyParams};
-use crypto_bigint::{BoxedUint, Monty, MontyMultiplier, Odd, Random, Square, SquareAssign, Uint};
+use crypto_bigint::modular::{BoxedMontyForm, BoxedMontyParams, ConstMontyForm, ConstMontyFormInverter, ConstMontyParams, MontyForm, MontyParams};
+use crypto_bigint::{BoxedUint, Invert, Inverter, Monty, PrecomputeInverter, MontyMultiplier, Odd, Random, Square, SquareAssign, Uint};
 use num_bigint::BigUint;
 use num_traits::{One, Zero};
 use serde::{Deserialize, Serialize};
@@ -93,7 +93,15 @@ pub enum Op {
     /// dst = sum of products of register pairs through lincomb_vartime
     Lincomb { dst: usize, pairs: Vec<(usize, usize)> },
     /// dst = a^-1 if it exists (register unchanged otherwise)
-    Invert { dst: usize, a: usize, vartime: bool },
+    /// via: 0 = inherent inv / invert, 1 = the `Invert` trait, 2 = one inverter object (precompute_inverter /
+    /// ConstMontyFormInverter::new) reused for three inversions in a row: x -> x^-1 -> x -> x^-1
+    Invert {
+        dst: usize,
+        a: usize,
+        vartime: bool,
+        #[serde(default)]
+        via: u8,
+    },
     /// Conditional selection between register `a` and a value of a DIFFERENT modulus `m2` of the same width (runtime
     /// fixed-width forms carry their parameters with them, so this is ordinary API use). choice = 0 must give back
     /// register `a` unchanged (stored in `dst`); choice = 1 must give a value that lives entirely in Z/m2Z: its
@@ -165,7 +173,7 @@ pub trait Rep: Clone {
     fn pow_wide(&self, e: &[u64]) -> Self;
     fn lincomb(pairs: &[(Self, Self)]) -> Self;
     /// None: this replica offers no inversion; Some(None): not invertible
-    fn invert(&self, vartime: bool) -> Option<Option<Self>>;
+    fn invert(&self, vartime: bool, via: u8) -> Option<Option<Self>>;
     /// None: values of this replica cannot meet a value of another modulus (compile-time modulus; boxed forms are not
     /// conditionally selectable)
     fn cross_select(&self, _m2: &[u64], _v: &[u64], _w: &[u64], _form: u8) -> Option<Cross<Self>> {
@@ -176,17 +184,33 @@ pub trait Rep: Clone {
 /// Inversion of the fixed-width forms needs `Odd<Uint<N>>: PrecomputeInverter`, which exists per alias width.
 pub struct S;
 pub trait Inv<const N: usize> {
-    fn inv_dyn(x: &MontyForm<N>, vartime: bool) -> Option<MontyForm<N>>;
-    fn inv_const<M: ConstMontyParams<N>>(x: &ConstMontyForm<M, N>, vartime: bool) -> Option<ConstMontyForm<M, N>>;
+    fn inv_dyn(x: &MontyForm<N>, vartime: bool, via: u8) -> Option<MontyForm<N>>;
+    fn inv_const<M: ConstMontyParams<N>>(x: &ConstMontyForm<M, N>, vartime: bool, via: u8) -> Option<ConstMontyForm<M, N>>;
+}
+/// One inverter object, three inversions in a row: x -> y = x^-1 -> x -> y. None as soon as one of them reports
+/// "not invertible" (for the second and third that contradicts the first, and the caller's existence check says so).
+fn thrice<I: Inverter>(inv: &I, x: &I::Output, vartime: bool) -> Option<I::Output> {
+    let step = |v: &I::Output| -> Option<I::Output> { Option::from(if vartime { inv.invert_vartime(v) } else { inv.invert(v) }) };
+    let y = step(x)?;
+    let z = step(&y)?;
+    step(&z)
 }
 macro_rules! impl_inv {
     ($($n:expr),*) => { $(
         impl Inv<$n> for S {
-            fn inv_dyn(x: &MontyForm<$n>, vartime: bool) -> Option<MontyForm<$n>> {
-                Option::from(if vartime { x.inv_vartime() } else { x.inv() })
+            fn inv_dyn(x: &MontyForm<$n>, vartime: bool, via: u8) -> Option<MontyForm<$n>> {
+                match via % 3 {
+                    0 => Option::from(if vartime { x.inv_vartime() } else { x.inv() }),
+                    1 => Option::from(if vartime { Invert::invert_vartime(x) } else { Invert::invert(x) }),
+                    _ => thrice(&x.params().precompute_inverter(), x, vartime),
+                }
             }
-            fn inv_const<M: ConstMontyParams<$n>>(x: &ConstMontyForm<M, $n>, vartime: bool) -> Option<ConstMontyForm<M, $n>> {
-                Option::from(if vartime { x.inv_vartime() } else { x.inv() })
+            fn inv_const<M: ConstMontyParams<$n>>(x: &ConstMontyForm<M, $n>, vartime: bool, via: u8) -> Option<ConstMontyForm<M, $n>> {
+                match via % 3 {
+                    0 => Option::from(if vartime { x.inv_vartime() } else { x.inv() }),
+                    1 => Option::from(if vartime { Invert::invert_vartime(x) } else { Invert::invert(x) }),
+                    _ => thrice(&ConstMontyFormInverter::<M, $n>::new(), x, vartime),
+                }
             }
         }
     )* };
@@ -276,8 +300,8 @@ where
         let v: Vec<(ConstMontyForm<M, N>, ConstMontyForm<M, N>)> = pairs.iter().map(|(a, b)| (a.0, b.0)).collect();
         CRep(ConstMontyForm::lincomb_vartime(&v))
     }
-    fn invert(&self, vartime: bool) -> Option<Option<Self>> {
-        Some(<S as Inv<N>>::inv_const(&self.0, vartime).map(CRep))
+    fn invert(&self, vartime: bool, via: u8) -> Option<Option<Self>> {
+        Some(<S as Inv<N>>::inv_const(&self.0, vartime, via).map(CRep))
     }
     type Ctx = ();
     const NAME: &'static str = "const";
@@ -364,8 +388,8 @@ where
         let v: Vec<(&MontyForm<N>, &MontyForm<N>)> = pairs.iter().map(|(a, b)| (a, b)).collect();
         if pairs.len() % 2 == 0 { MontyForm::lincomb_vartime(&v) } else { <MontyForm<N> as Monty>::lincomb_vartime(&v) }
     }
-    fn invert(&self, vartime: bool) -> Option<Option<Self>> {
-        Some(<S as Inv<N>>::inv_dyn(self, vartime))
+    fn invert(&self, vartime: bool, via: u8) -> Option<Option<Self>> {
+        Some(<S as Inv<N>>::inv_dyn(self, vartime, via))
     }
     type Ctx = MontyParams<N>;
     const NAME: &'static str = "runtime";
@@ -545,8 +569,12 @@ impl Rep for BoxedMontyForm {
         let v: Vec<(&BoxedMontyForm, &BoxedMontyForm)> = pairs.iter().map(|(a, b)| (a, b)).collect();
         if pairs.len() % 2 == 0 { BoxedMontyForm::lincomb_vartime(&v) } else { <BoxedMontyForm as Monty>::lincomb_vartime(&v) }
     }
-    fn invert(&self, vartime: bool) -> Option<Option<Self>> {
-        Some(Option::from(if vartime { self.invert_vartime() } else { self.invert() }))
+    fn invert(&self, vartime: bool, via: u8) -> Option<Option<Self>> {
+        Some(match via % 3 {
+            0 => Option::from(if vartime { self.invert_vartime() } else { self.invert() }),
+            1 => Option::from(if vartime { Invert::invert_vartime(self) } else { Invert::invert(self) }),
+            _ => thrice(&self.params().precompute_inverter(), self, vartime),
+        })
     }
     type Ctx = BCtx;
     const NAME: &'static str = "boxed";
@@ -1248,15 +1276,16 @@ fn run<C: Rep, D: Rep + Monty, B: Rep + Monty>(
                 cross_side!(b, "boxed");
                 touched.push(*dst);
             }
-            Op::Invert { dst, a, vartime } => {
-                opname = if *vartime { "invert_vartime".into() } else { "invert".into() };
+            Op::Invert { dst, a, vartime, via } => {
+                opname = format!("{}{}", if *vartime { "invert_vartime" } else { "invert" }, ["", "(trait)", "(inverter object x3)"][(*via % 3) as usize]);
+                out.count(&format!("probe:invert-route-{}", via % 3));
                 if model.m.is_one() {
                     // Z/1Z: 0 is its own inverse or has none, depending on taste — nothing asserted about the result,
                     // but the call must not unwind and whatever it returns must be canonical
                     macro_rules! inv1 {
                         ($side:expr, $name:expr) => {
                             if let Some(s) = $side.as_mut() {
-                                match guard(|| s.regs[*a].invert(*vartime)) {
+                                match guard(|| s.regs[*a].invert(*vartime, *via)) {
                                     Guarded::Done(Some(Some(v))) => {
                                         if big(&v.mont()) >= model.m {
                                             out.viol("C08/noncanonical", format!("{}:invert:m=1", $name), format!("invert for m = 1 returned the stored form {}", hexw(&v.mont())), None);
@@ -1281,7 +1310,7 @@ fn run<C: Rep, D: Rep + Monty, B: Rep + Monty>(
                 macro_rules! inv_side {
                     ($side:expr, $name:expr) => {
                         if let Some(s) = $side.as_mut() {
-                            match guard(|| s.regs[*a].invert(*vartime)) {
+                            match guard(|| s.regs[*a].invert(*vartime, *via)) {
                                 Guarded::Done(Some(Some(v))) => {
                                     s.regs[*dst] = v;
                                     exists.push(($name, true));
@@ -1486,7 +1515,7 @@ impl Rep for NoRep {
     fn lincomb(_: &[(Self, Self)]) -> Self {
         NoRep
     }
-    fn invert(&self, _: bool) -> Option<Option<Self>> {
+    fn invert(&self, _: bool, _: u8) -> Option<Option<Self>> {
         None
     }
 }
@@ -1975,7 +2004,7 @@ impl TypedScenario for History {
                     let k = r.range(1, 5) as usize;
                     Op::Lincomb { dst: reg(&mut r), pairs: (0..k).map(|_| (reg(&mut r), reg(&mut r))).collect() }
                 }
-                23 => Op::Invert { dst: reg(&mut r), a: reg(&mut r), vartime: r.chance(1, 2) },
+                23 => Op::Invert { dst: reg(&mut r), a: reg(&mut r), vartime: r.chance(1, 2), via: r.below(3) as u8 },
                 _ => {
                     let m2 = gen_modulus(&mut r, limbs);
                     let m2b = big(&m2);
